@@ -227,7 +227,11 @@ def _pt(case, dim):
                             _cmp(c, "UDQ*p/value", got, Rq @ P + t[:, None], tol, sc, real_scalar_negative=sgn < 0)
                     ok2, Tudq = c.lib("UDQ.SE3", D.SE3)
                     if ok2:
-                        c.eq("UDQ.SE3/value", Tudq.A, refs.rt(Rq, t), tol, sc)
+                        Au = np.asarray(Tudq.A, dtype=float)
+                        if c.true("UDQ.SE3/shape", Au.shape == (4, 4), "shape %s" % (Au.shape,)):
+                            # rotation entries are of size 1 whatever the scale of the data, the translation is data
+                            c.eq("UDQ.SE3/rotation", Au[:3, :3], Rq, tol, 1.0)
+                            c.eq("UDQ.SE3/value", Au[:3, 3], t, tol, sc)
     if dim == 3 and N == 1:
         # composed unit dual quaternions: (D1 D2) p = D1 (D2 p) = R1 (R2 p + t2) + t1, for both signs of either factor
         qy = refs.q_of(case["Y"]["rot"])
